@@ -54,7 +54,7 @@ pub fn all_requests(text: &str, uri: &str, formatting_matrix: bool) -> Vec<Req> 
         out.push(Req { method: m.to_string(), params: doc_request_params(m, uri) });
     }
     if formatting_matrix {
-        for tab in [0u32, 1, 2, 8] {
+        for tab in [0u32, 1, 2, 8, 9, 16, 255, 100_000] {
             for spaces in [true, false] {
                 out.push(Req {
                     method: "textDocument/formatting".into(),
@@ -426,6 +426,19 @@ pub fn run(tier: Tier) -> Report {
     fams.push(json!({"family": "binary-conformance", "documents": proc_docs.len(), "failing": proc_fails.len()}));
     let n_proc = proc_docs.len() as u64;
     fails.extend(proc_fails);
+    // back-pressure: a slow reader of stdout behind 150 changes and 70 requests, and a burst
+    // of 100 changes (more queued messages than the channels hold) - the process must survive
+    // and answer (the full oracle of these sessions belongs to C20)
+    for graceful in [true, false] {
+        if let (Some((k, d)), _) = crate::checks::c20::eval_slow_reader(150, 70, graceful) {
+            fails.push(Failure { key: format!("process:slow-reader:{}", k), case: json!({"slow_reader": {"procedures": 150, "requests": 70, "graceful": graceful}, "mode": "process"}), detail: d });
+        }
+    }
+    for binary in [false, true] {
+        if let Some((k, d)) = crate::checks::c20::eval_change_burst(100, binary) {
+            fails.push(Failure { key: format!("process:change-burst:{}", k), case: json!({"change_burst": {"n": 100, "binary": binary}, "mode": "process"}), detail: d });
+        }
+    }
     rep.states = docs.load(Ordering::Relaxed);
     rep.transitions = calls.load(Ordering::Relaxed);
     rep.traces_validated = n_proc;
@@ -444,6 +457,9 @@ pub fn run(tier: Tier) -> Report {
 }
 
 pub fn replay(case: &Value) -> Vec<Failure> {
+    if case.get("slow_reader").is_some() || case.get("change_burst").is_some() {
+        return crate::checks::c20::replay(case);
+    }
     let text = case["text"].as_str().unwrap_or("").to_string();
     let edits: Vec<Vec<(usize, usize, String)>> = serde_json::from_value(case["edits"].clone()).unwrap_or_default();
     let raw: Vec<Vec<RawChange>> = serde_json::from_value(case["raw_changes"].clone()).unwrap_or_default();
